@@ -1,2 +1,2 @@
 (* All executable models (extraction root). *)
-From NunDB Require Export Model.Base Model.Pending Model.Oplog Model.Parse Model.Node Model.Disk Model.Cluster Model.Sched Model.Meta Model.S3 Model.Election Model.Failover.
+From NunDB Require Export Model.Base Model.Pending Model.Oplog Model.Parse Model.Node Model.Disk Model.Cluster Model.Sched Model.Meta Model.S3 Model.Election Model.Failover Model.Net.
